@@ -3,6 +3,7 @@ package main
 import (
 	"bytes"
 	"context"
+	"errors"
 	"fmt"
 	stdhtml "html"
 	"strings"
@@ -74,6 +75,8 @@ type c01Sink struct {
 	tpl      func(pre, post string) string
 	attr     string // "" = text sink; else the attribute whose value is observed
 	probe    string // data-m of the probe element ("" = "1")
+	last     bool   // observe the LAST element carrying the probe mark (constructs that instantiate the sink twice)
+	page     bool   // render files["page.vuego"] through Load (layouts apply) instead of the template string
 }
 
 func c01Sinks() []c01Sink {
@@ -81,6 +84,18 @@ func c01Sinks() []c01Sink {
 		"comp.vuego":   `<p data-m="1">[{{ u }}]</p><p data-m="2" :title="u" data-t="x{{ u }}y">t</p>`,
 		"slotc.vuego":  `<div><slot :item="val">fb</slot></div>`,
 		"layouts/l.vuego": `<html><body><p data-m="1">[{{ v }}]</p><main v-html="content"></main></body></html>`,
+	}
+	comp2 := map[string]string{
+		"card.vuego":      `<div><header><slot></slot></header><footer><slot></slot></footer></div>`,
+		"list.vuego":      `<ul><li v-for="i in two"><slot></slot></li></ul>`,
+		"outer.vuego":     `<section><template include="comp.vuego" :u="w"></template></section>`,
+		"page.vuego":      "---\nlayout: l\n---\n<p data-m=\"3\">[{{ v }}]</p>",
+		"layouts/l.vuego": `<html><body><p data-m="1">[{{ v }}]</p><main v-html="content"></main></body></html>`,
+	}
+	for k, v := range comp {
+		if _, ok := comp2[k]; !ok {
+			comp2[k] = v
+		}
 	}
 	return []c01Sink{
 		{name: "text", tpl: func(a, b string) string { return `<p data-m="1">` + a + `{{ v }}` + b + `</p>` }},
@@ -102,11 +117,54 @@ func c01Sinks() []c01Sink {
 		{name: "slot-content", files: comp, tpl: func(a, b string) string {
 			return `<template include="slotc.vuego"><p data-m="1">` + a + `{{ v }}` + b + `</p></template>`
 		}},
+		{name: "slot-twice-text", files: comp2, last: true, tpl: func(a, b string) string {
+			return `<template include="card.vuego"><p data-m="1">` + a + `{{ v }}` + b + `</p></template>`
+		}},
+		{name: "slot-twice-include-prop", files: comp2, last: true, tpl: func(a, b string) string {
+			return `<template include="card.vuego"><template include="comp.vuego" :u="v"></template></template>`
+		}},
+		{name: "slot-twice-include-prop-attr", files: comp2, last: true, attr: "title", probe: "2", tpl: func(a, b string) string {
+			return `<template include="card.vuego"><template include="comp.vuego" :u="v"></template></template>`
+		}},
+		{name: "slot-in-loop-include-prop", files: comp2, last: true, tpl: func(a, b string) string {
+			return `<template include="list.vuego"><template include="comp.vuego" u="{{ v }}"></template></template>`
+		}},
+		{name: "include-in-loop", files: comp2, last: true, tpl: func(a, b string) string {
+			return `<div v-for="i in two"><template include="comp.vuego" :u="v"></template></div>`
+		}},
+		{name: "include-nested-prop", files: comp2, tpl: func(a, b string) string {
+			return `<template include="outer.vuego" :w="v"></template>`
+		}},
+		{name: "layout-variable", files: comp2, page: true, tpl: func(a, b string) string { return `` }},
 		{name: "chain-branch-v-text", tpl: func(a, b string) string { return `<p v-if="no">n</p><p data-m="1" v-else v-text="v">old</p>` }},
 	}
 }
 
 func c01Render(files map[string]string, tpl string, v string) (string, error) {
+	return c01RenderAny(files, tpl, v, false)
+}
+
+// value types other than string that can carry a hostile string to a sink
+type c01Slug string
+type c01Str struct{ s string }
+
+func (x c01Str) String() string { return x.s }
+
+var c01Wrappers = []struct {
+	name string
+	wrap func(s string) any
+}{
+	{"[]any", func(s string) any { return []any{s} }},
+	{"[]string", func(s string) any { return []string{s, "z"} }},
+	{"map", func(s string) any { return map[string]any{"k": s} }},
+	{"named-string", func(s string) any { return c01Slug(s) }},
+	{"error", func(s string) any { return errors.New(s) }},
+	{"stringer", func(s string) any { return c01Str{s} }},
+	{"*string", func(s string) any { return &s }},
+	{"struct", func(s string) any { return struct{ Name string }{s} }},
+}
+
+func c01RenderAny(files map[string]string, tpl string, v any, page bool) (string, error) {
 	m := fstest.MapFS{}
 	for k, s := range files {
 		m[k] = &fstest.MapFile{Data: []byte(s)}
@@ -119,14 +177,21 @@ func c01Render(files map[string]string, tpl string, v string) (string, error) {
 				err = fmt.Errorf("PANIC %v", x)
 			}
 		}()
-		data := map[string]any{"v": v, "vs": []any{v}, "yes": true, "no": false, "secret": "CANARY"}
-		err = vuego.NewFS(m).Fill(data).RenderString(context.Background(), &limitWriter{w: &buf, max: 1 << 20}, tpl)
+		data := map[string]any{"v": v, "vs": []any{v}, "yes": true, "no": false, "secret": "CANARY", "two": []any{1, 2}}
+		if page {
+			err = vuego.NewFS(m).Load("page.vuego").Fill(data).Render(context.Background(), &limitWriter{w: &buf, max: 1 << 20})
+		} else {
+			err = vuego.NewFS(m).Fill(data).RenderString(context.Background(), &limitWriter{w: &buf, max: 1 << 20}, tpl)
+		}
 	}()
 	return buf.String(), err
 }
 
 // skeleton (element and attribute names in document order) and the probe's observed sink content
 func c01Parse(out string, probe string, attr string) (skel string, sink string, found bool) {
+	return c01ParseX(out, probe, attr, false)
+}
+func c01ParseX(out string, probe string, attr string, last bool) (skel string, sink string, found bool) {
 	nodes, err := html.ParseFragment(strings.NewReader(out), &html.Node{Type: html.ElementNode, Data: "body", DataAtom: atom.Body})
 	if err != nil {
 		nodes, err = html.ParseFragment(strings.NewReader(out), nil)
@@ -161,7 +226,7 @@ func c01Parse(out string, probe string, attr string) (skel string, sink string, 
 				}
 			}
 			sb.WriteString(">")
-			if isProbe && !found {
+			if isProbe && (!found || last) {
 				found = true
 				if attr == "" {
 					sink = textOf(n)
@@ -288,12 +353,12 @@ func runC01(r *Run) {
 				continue // the sink has no static neighbourhood
 			}
 			tpl := sk.tpl(nb[0], nb[1])
-			wordOut, wordErr := c01Render(sk.files, tpl, "word")
+			wordOut, wordErr := c01RenderAny(sk.files, tpl, "word", sk.page)
 			probe := sk.probe
 			if probe == "" {
 				probe = "1"
 			}
-			wordSkel, _, wordFound := c01Parse(wordOut, probe, sk.attr)
+			wordSkel, _, wordFound := c01ParseX(wordOut, probe, sk.attr, sk.last)
 			if wordErr != nil || !wordFound {
 				r.Count("sink-template-unusable:" + sk.name)
 				continue
@@ -302,7 +367,7 @@ func runC01(r *Run) {
 				if !r.Thorough() && ni > 0 && len(v) == 2 && r.Rng.Intn(3) != 0 {
 					continue
 				}
-				out, err := c01Render(sk.files, tpl, v)
+				out, err := c01RenderAny(sk.files, tpl, v, sk.page)
 				r.Eval("sink:"+sk.name+":"+fmt.Sprint(ni)+":"+v, strings.ContainsAny(v, `<>&"'{}`), map[string]any{"sink": sk.name, "template": tpl, "value": v})
 				r.Count("sink:" + sk.name)
 				desc := map[string]any{"sink": sk.name, "template": tpl, "files": sk.files, "value": v, "output": out}
@@ -311,7 +376,7 @@ func runC01(r *Run) {
 					r.Fail("rendering a hostile value failed where a harmless word renders", sig, map[string]any{"case": desc, "err": err.Error()})
 					continue
 				}
-				skel, sink, found := c01Parse(out, probe, sk.attr)
+				skel, sink, found := c01ParseX(out, probe, sk.attr, sk.last)
 				if skel != wordSkel {
 					sig["what"] = "skeleton"
 					r.Fail("a data value changed the elements or attribute names an HTML parser finds", sig, map[string]any{"case": desc, "skeleton": skel, "skeleton_with_word": wordSkel})
@@ -320,11 +385,11 @@ func runC01(r *Run) {
 				dec := func(s string) string { return stdhtml.UnescapeString(s) }
 				want := dec(nb[0]) + v + dec(nb[1])
 				switch sk.name {
-				case "v-text", "attr-bound", "for-child-attr", "include-bound-prop-attr", "chain-branch-v-text":
+				case "v-text", "attr-bound", "for-child-attr", "include-bound-prop-attr", "chain-branch-v-text", "slot-twice-include-prop-attr":
 					want = v
 				case "attr-bound-class-merge":
 					want = "k " + v
-				case "include-static-prop", "include-bound-prop":
+				case "include-static-prop", "include-bound-prop", "slot-twice-include-prop", "slot-in-loop-include-prop", "include-in-loop", "include-nested-prop", "layout-variable":
 					want = "[" + v + "]"
 				case "for-root":
 					want = v
@@ -332,10 +397,10 @@ func runC01(r *Run) {
 				if sk.attr != "" && strings.TrimSpace(v) == "" && (sk.name == "attr-bound" || sk.name == "for-child-attr" || sk.name == "for-root" || sk.name == "include-bound-prop-attr") {
 					want = sink // a falsy bound value omits the attribute (C14)
 				}
-				if sk.name == "include-static-prop" && (strings.HasPrefix(v, "{") || strings.HasPrefix(v, "[")) {
+				if (sk.name == "include-static-prop" || sk.name == "slot-in-loop-include-prop") && (strings.HasPrefix(v, "{") || strings.HasPrefix(v, "[")) {
 					want = sink // JSON-looking attribute strings are decoded (documented)
 				}
-				if sk.name == "include-bound-prop" || sk.name == "include-bound-prop-attr" || sk.name == "slot-prop" {
+				if sk.name == "include-bound-prop" || sk.name == "include-bound-prop-attr" || sk.name == "slot-prop" || sk.name == "slot-twice-include-prop" || sk.name == "slot-twice-include-prop-attr" || sk.name == "include-in-loop" || sk.name == "include-nested-prop" {
 					if strings.TrimSpace(v) == "" || strings.HasPrefix(v, "{") || strings.HasPrefix(v, "[") {
 						want = sink // falsy props are not passed; JSON-looking strings are decoded (documented)
 					}
@@ -352,4 +417,43 @@ func runC01(r *Run) {
 			}
 		}
 	}
+
+	// ---------- values that are not strings (the printed form of a slice, map, named string, error, Stringer ...) ----------
+	hostile := []string{"<img src=x onerror=alert(1)>", "</p><script>x</script>", `"><b a="`, "{{ secret }}", "a&lt;b", "<!--", "' onmouseover='x"}
+	for _, sk := range c01Sinks() {
+		tpl := sk.tpl("pre ", " post")
+		probe := sk.probe
+		if probe == "" {
+			probe = "1"
+		}
+		for _, w := range c01Wrappers {
+			wordOut, wordErr := c01RenderAny(sk.files, tpl, w.wrap("word"), sk.page)
+			wordSkel, _, wordFound := c01ParseX(wordOut, probe, sk.attr, sk.last)
+			if wordErr != nil || !wordFound {
+				r.Count("typed-sink-unusable:" + sk.name + ":" + w.name)
+				continue
+			}
+			for _, h := range hostile {
+				out, err := c01RenderAny(sk.files, tpl, w.wrap(h), sk.page)
+				r.Eval("typed:"+sk.name+":"+w.name+":"+h, true, map[string]any{"sink": sk.name, "value_type": w.name, "value": h})
+				r.Count("typed:" + w.name)
+				desc := map[string]any{"sink": sk.name, "template": tpl, "files": sk.files, "value_type": w.name, "value": h, "output": out}
+				sig := map[string]string{"oracle": "inert", "sink": sk.name, "value_type": w.name}
+				if err != nil {
+					continue // a type a sink rejects is rejected for the harmless word too or is an error, not markup
+				}
+				skel, _, _ := c01ParseX(out, probe, sk.attr, sk.last)
+				if skel != wordSkel {
+					sig["what"] = "skeleton"
+					r.Fail("a data value changed the elements or attribute names an HTML parser finds", sig, map[string]any{"case": desc, "skeleton": skel, "skeleton_with_word": wordSkel})
+					continue
+				}
+				if strings.Contains(out, "CANARY") {
+					sig["what"] = "evaluated"
+					r.Fail("mustache syntax inside a data value was evaluated against the scope", sig, map[string]any{"case": desc})
+				}
+			}
+		}
+	}
+
 }
